@@ -1,2 +1,92 @@
--- stub: replaced by the model driver of this property
-def main : IO Unit := pure ()
+import SdcModel.Basic.Io
+import SdcModel.RequestFlow
+open Sdc Sdc.RequestFlow
+
+/-- stage outcome: `ok` | `ok:<n>` | `p:<status>:<tag>` (InvalidPathError) | `h:<status>:<tag>` | `o:<cls>` -/
+def exc? (s : String) : Option Exc :=
+  match s.splitOn ":" with
+  | ["p", a, b] => do pure (.invalidPath (← a.toNat?) (← b.toNat?))
+  | ["h", a, b] => do pure (.http (← a.toNat?) (← b.toNat?))
+  | ["o", a] => do pure (.other (← a.toNat?))
+  | _ => none
+
+def unitStage? (s : String) : Option (Stage Unit) :=
+  if s = "ok" then some (.ok ()) else (exc? s).map .error
+
+def natStage? (s : String) : Option (Stage Nat) :=
+  match s.splitOn ":" with
+  | ["ok"] => some (.ok 0)
+  | ["ok", n] => n.toNat?.map .ok
+  | _ => (exc? s).map .error
+
+def showExc : Exc → String
+  | .invalidPath s t => s!"p:{s}:{t}"
+  | .http s t => s!"h:{s}:{t}"
+  | .other c => s!"o:{c}"
+
+def showReason : Reason → String
+  | .ok => "Ok" | .ofExc t => s!"r{t}" | .exception => "exception"
+
+def showBody : Body → String
+  | .response i => s!"resp:{i}" | .fault i => s!"fault:{i}" | .reply i => s!"reply:{i}"
+
+def showResp (r : Response) : String := s!"{r.status} {showReason r.reason} {showBody r.body}"
+
+def showGet : GetOut → String
+  | .ok i => s!"200 Ok get:{i}" | .error => "500 Exception text"
+
+def showOut : HttpOut → String
+  | .plain s r => s!"plain {s} {showReason r}"
+  | .soap r => "soap " ++ showResp r
+  | .get r => "get " ++ showGet r
+
+/-- component.do_post as seen by do_POST: `ret:<status>` | exception -/
+def postOutcome? (s : String) : Option (Nat → Stage Response × Nat) :=
+  match s.splitOn ":" with
+  | ["ret", st] => st.toNat?.map fun st => fun n => (.ok ⟨st, .ok, .response 0⟩, n + 1)
+  | _ => (exc? s).map fun x => fun n => (.error x, n + 1)
+
+/-- ops:
+  `post read1 mkFaultMsg serFault dispatch serResp read2 mkReply serReply`  ->  `ret <status> <reason> <body> calls=<n>` | `escape <exc> calls=<n>`
+  `get parse handle`
+  `POST readBody hasDispatcher lookup post`     `GET hasDispatcher lookup get`   (get = `ok:<n>` | `err` | exception escaping do_get) -/
+def stepLine (st : Unit) (line : String) : Unit × String :=
+  match Io.words line with
+  | ["post", a, b, c, d, e, f, g, h] =>
+    match unitStage? a, unitStage? b, natStage? c, unitStage? d, natStage? e, unitStage? f, unitStage? g, natStage? h with
+    | some a, some b, some c, some d, some e, some f, some g, some h =>
+      let env : PostEnv Nat := ⟨a, b, c, fun n => (d, n + 1), e, f, g, h⟩
+      match doPost env 0 with
+      | (.ok r, n) => (st, s!"ret {showResp r} calls={n}")
+      | (.error x, n) => (st, s!"escape {showExc x} calls={n}")
+    | _, _, _, _, _, _, _, _ => (st, "bad-op")
+  | ["get", a, b] =>
+    match unitStage? a, natStage? b with
+    | some a, some b => (st, match doGet ⟨a, b⟩ with
+      | .ok r => "ret " ++ showGet r
+      | .error x => "escape " ++ showExc x)
+    | _, _ => (st, "bad-op")
+  | ["POST", rb, hd, lk, p] =>
+    match unitStage? rb, unitStage? lk, postOutcome? p with
+    | some rb, some lk, some p =>
+      let env : HandlerEnv Nat := ⟨rb, hd == "1", lk, p, .ok (.ok 0)⟩
+      match doPOST env 0 with
+      | (.ok o, n) => (st, s!"{showOut o} calls={n}")
+      | (.error x, n) => (st, s!"escape {showExc x} calls={n}")
+    | _, _, _ => (st, "bad-op")
+  | ["GET", hd, lk, g] =>
+    let gs : Option (Stage GetOut) :=
+      if g = "err" then some (.ok .error) else match natStage? g with
+        | some (.ok n) => some (.ok (.ok n))
+        | some (.error x) => some (.error x)
+        | none => none
+    match unitStage? lk, gs with
+    | some lk, some gs =>
+      let env : HandlerEnv Nat := ⟨.ok (), hd == "1", lk, fun n => (.error (.other 0), n), gs⟩
+      (st, match doGET env with
+        | .ok o => showOut o
+        | .error x => "escape " ++ showExc x)
+    | _, _ => (st, "bad-op")
+  | _ => (st, "bad-op")
+
+def main : IO Unit := Io.lineLoop stepLine ()
